@@ -65,7 +65,7 @@ type Ceremony struct {
 	SeedSetTwice           bool
 	// ProposalMismatch: set by RunBatch when the last proposal differs from what was handed in
 	ProposalMismatch string
-	EarlyBatch             bool
+	EarlyBatch       bool
 	// ReinitFile: the reinitialisation file as written by the dkg_reinitializer binary (tool-chain worlds).
 	ReinitFile string
 }
